@@ -222,6 +222,36 @@ theorem resumed_rechecked {Chain : Type} (O : Oracle Chain) (S : SessOracle Chai
   · rw [hc] at h; cases h
   · rw [hc] at h; cases h
 
+/-- **the re-check uses the verification name, never the SNI value.** Whatever `ServerName` is — a
+DNS name, an IP literal (for which the ClientHello carries no server_name), a name the spec does not
+send at all: the value of the hello's SNI is not even an input of the decision —, a resumed
+connection under a Config that verifies means the cached leaf matched exactly the host name a full
+handshake under this Config would hand to x509. -/
+theorem resumed_name_is_fresh_name {Chain : Type} (O : Oracle Chain) (S : SessOracle Chain) (cfg : Cfg)
+    (cached : Option (Session Chain)) (og sr echAccepted : Bool) (connName : String) (chain : Chain)
+    (hskip : cfg.skipVerify = false) (hrej : echRejected cfg echAccepted = false)
+    (h : connect O S cfg cached og sr echAccepted connName chain = .accepted true) :
+    ∃ p, verifyPlan cfg echAccepted connName = .verify p ∧
+      ∀ s, cached = some s → ∀ x, p.name = some x → S.hostOk x s.chain = true := by
+  have hplan : verifyPlan cfg echAccepted connName
+      = .verify ⟨chooseTime cfg, chooseName cfg cfg.serverName⟩ := by
+    unfold verifyPlan; simp [hrej, hskip]
+  refine ⟨_, hplan, ?_⟩
+  intro s hs x hx
+  rcases connect_cases O S cfg cached og sr echAccepted connName chain with
+    ⟨ho, _, _⟩ | ⟨_, ⟨_, hc⟩ | ⟨_, _, hc⟩ | ⟨_, _, hc⟩⟩
+  · subst hs
+    have h3 : sessionUsable S cfg s = true ∧ og = true := by simpa [offered] using ho
+    have hu := h3.1
+    unfold sessionUsable at hu
+    simp only [Bool.and_eq_true, Bool.or_eq_true, Bool.not_eq_true', hskip, Bool.false_eq_true, false_or] at hu
+    simp only at hx
+    rw [hx] at hu
+    exact hu.2.2
+  · rw [hc] at h; cases h
+  · rw [hc] at h; cases h
+  · rw [hc] at h; cases h
+
 /-! ## non-vacuity: concrete instances meeting the hypotheses -/
 
 /-- a toy x509: chains are (names the leaf is valid for, valid now?, valid at NotAfter?). -/
@@ -254,5 +284,12 @@ example : connect toyO toyS ⟨"a.test", "", false, false, false⟩
 example : connect toyO toyS ⟨"a.test", "", false, false, false⟩
     (some ⟨(["b.test"], true, true), true⟩) true true false "a.test" (["x"], false, false)
     = .certError := by decide
+-- resumed_name_is_fresh_name: an IP-literal ServerName is re-checked like any other name
+example : connect toyO toyS ⟨"127.0.0.1", "", false, false, false⟩
+    (some ⟨(["other.invalid"], true, true), true⟩) true true false "127.0.0.1" (["other.invalid"], true, true)
+    = .certError := by decide
+example : connect toyO toyS ⟨"127.0.0.1", "", false, false, false⟩
+    (some ⟨(["127.0.0.1"], true, true), true⟩) true true false "127.0.0.1" (["x"], false, false)
+    = .accepted true := by decide
 
 end C14
